@@ -191,7 +191,15 @@ def rule_tables(facts, rep):
     rep.check(not other_true and got == {n for n in sgr.ANSI16 if n.startswith("Bright")}, "tables", ib["path"], "eight-bright-variants", f"{sorted(got)} {other_true}", loc(ib))
     ar = facts.body("anstyle_roff", R + "ansi_color_to_roff")
     rep.fn(ar["path"])
-    t = ac.variant_table(ac.single_expr(ar["hir"]), "anstyle::color::AnsiColor", hir.lit_val)
+    # by evaluation on each of the 16 variants: a match, a const table indexed by the palette index, a helper are one function
+    t = {}
+    for n in sgr.ANSI16:
+        try:
+            ev = abseval.Evaluator(facts, "anstyle_roff", {}, inline_crates=("anstyle",))
+            r = ev.call_fn("anstyle_roff", ar["path"], [("enum", "anstyle::color::AnsiColor::" + n)])
+            t[n] = r[1] if r[0] == "str" else str(r)[:60]
+        except Unrecognised as ex:
+            t[n] = f"not evaluable: {ex}"[:80]
     want = {n: (n[len("Bright"):] if n.startswith("Bright") else n).lower() for n in sgr.ANSI16}
     rep.check(t == want, "tables", ar["path"], "hue-names", f"{ {k: v for k, v in t.items() if want.get(k) != v} }", loc(ar))
     rep.count(16)
